@@ -1071,6 +1071,9 @@ func (l *LineWrapper) wrapNextLine(config lineConfig) (done bool) {
 		case truncated:
 			// The candidateRun does not fit.
 			if !l.scratch.hasBest() {
+				// drop the whole runs appended while reaching this candidate:
+				// a line ending there would not end at a break opportunity
+				l.restore()
 				l.scratch.markCandidateBest()
 			}
 			if l.config.BreakPolicy == Never {
